@@ -27,9 +27,12 @@ ASSUMPTIONS = [
 
 ERR = 1
 DEFS = ["(Definition/Pl, (Red, Square))", "(Definition/Vt/#, (Label/#, Blue))", "(Definition/Vu/#, (Distance/# m, Green))",
-        "(Definition/Ne, (Red, (Blue, (Green))))", "(Definition/Em)"]
+        "(Definition/Ne, (Red, (Blue, (Green))))", "(Definition/Em)",
+        # the position of the filled-in tag among its siblings depends on the value
+        "(Definition/Pa/#, (Label/#, Label/m))", "(Definition/Cm/#, ((Speed/# mph, Square), (Speed/5 mph, Triangle)))"]
 REFDEFS = {"pl": (False, ["Red", "Square"]), "vt": (True, ["Label/#", "Blue"]), "vu": (True, ["Distance/# m", "Green"]),
-           "ne": (False, ["Red", ["Blue", ["Green"]]]), "em": (False, None)}
+           "ne": (False, ["Red", ["Blue", ["Green"]]]), "em": (False, None),
+           "pa": (True, ["Label/#", "Label/m"]), "cm": (True, [["Speed/# mph", "Square"], ["Speed/5 mph", "Triangle"]])}
 
 
 # ---- reference model on nested lists ---------------------------------------------------------------
@@ -398,23 +401,26 @@ def worker_defexpand(rec, shard, nshards, seed):
     for key, (takes, content) in REFDEFS.items():
         if content is None:
             continue
-        name = {"pl": "Pl", "vt": "Vt/abc", "vu": "Vu/3", "ne": "Ne"}[key]
-        value = name.partition("/")[2]
-        exp = subst(content, value) if takes else content
-        for order in all_orders(exp):
-            for ctx_fmt in ("{}", "(Circle, {})", "{}, Circle"):
-                cases.append(("accept", ctx_fmt.format(f"(Def-expand/{name}, ({render_tree(order)}))")))
-                cases.append(("accept", ctx_fmt.format(f"(({render_tree(order)}), Def-expand/{name})")))
-        for ed in single_edits(exp):
-            for order in itertools.islice(all_orders(ed), 6):
-                cases.append(("reject", f"(Def-expand/{name}, ({render_tree(order)}))"))
-        if takes:
-            other = subst(content, "zz9" if key == "vt" else "4")
-            cases.append(("reject", f"(Def-expand/{name}, ({render_tree(other)}))"))
-            # the content with its '#' still in it is not the expansion for value v (judged where placeholders are allowed,
-            # i.e. the way sidecar entries are validated, so that the '#' itself is no error)
-            cases.append(("reject-ph", f"(Def-expand/{name}, ({render_tree(content)}))"))
-            cases.append(("reject-ph", f"(Circle, (Def-expand/{name}, ({render_tree(content)})))"))
+        for name in {"pl": ["Pl"], "vt": ["Vt/abc"], "vu": ["Vu/3"], "ne": ["Ne"], "pa": ["Pa/a", "Pa/zz"],
+                     "cm": ["Cm/3", "Cm/7"]}[key]:
+            value = name.partition("/")[2]
+            exp = subst(content, value) if takes else content
+            for order in all_orders(exp):
+                for ctx_fmt in ("{}", "(Circle, {})", "{}, Circle"):
+                    cases.append(("accept", ctx_fmt.format(f"(Def-expand/{name}, ({render_tree(order)}))")))
+                    cases.append(("accept", ctx_fmt.format(f"(({render_tree(order)}), Def-expand/{name})")))
+            for ed in single_edits(exp):
+                if canon(ed) == canon(exp):
+                    continue        # replacing 'Triangle' by 'Triangle' is no alteration
+                for order in itertools.islice(all_orders(ed), 6):
+                    cases.append(("reject", f"(Def-expand/{name}, ({render_tree(order)}))"))
+            if takes:
+                other = subst(content, "zz9" if key == "vt" else "4")
+                cases.append(("reject", f"(Def-expand/{name}, ({render_tree(other)}))"))
+                # the content with its '#' still in it is not the expansion for value v (judged where placeholders are allowed,
+                # i.e. the way sidecar entries are validated, so that the '#' itself is no error)
+                cases.append(("reject-ph", f"(Def-expand/{name}, ({render_tree(content)}))"))
+                cases.append(("reject-ph", f"(Circle, (Def-expand/{name}, ({render_tree(content)})))"))
     for ci in core.shard_order(len(cases), shard, nshards, seed):
         want, text = cases[ci]
         rec.n("evaluations")
